@@ -29,6 +29,38 @@ def main():
                 out['obs'] = json.loads(canon(normalise_obs(observe_model(m, L))))
             except Exception as e:      # noqa: BLE001
                 out['error'] = repr(e)
+        elif cmd == 'gen_graph':
+            import os
+            from .lang import canon
+            import hashlib
+            with open(sys.argv[2]) as f:
+                job = json.load(f)
+            os.makedirs(os.path.join(job['cwd'], 'tmp'), exist_ok=True)
+            os.chdir(job['cwd'])
+            try:
+                if job['via'] == 'api':
+                    from maltoolbox.language import LanguageGraph, LanguageClassesFactory
+                    from maltoolbox.model import Model
+                    from maltoolbox.attackgraph import AttackGraph
+                    from maltoolbox.attackgraph.analyzers.apriori import calculate_viability_and_necessity
+                    with open(job['spec']) as f:
+                        spec = json.load(f)
+                    lg = LanguageGraph(spec)
+                    fac = LanguageClassesFactory(lg)
+                    m = Model.load_from_file(job['model_file'], fac)
+                    g = AttackGraph(lg, m)
+                    g.attach_attackers()
+                    calculate_viability_and_necessity(g)
+                else:
+                    import contextlib
+                    import io
+                    from maltoolbox.wrappers import create_attack_graph
+                    with contextlib.redirect_stderr(io.StringIO()):
+                        g = create_attack_graph(job['lang_file'], job['model_file'])
+                out['digest'] = hashlib.sha256(canon(g._to_dict()).encode()).hexdigest()
+                out['nodes'] = len(g.nodes)
+            except BaseException as e:      # noqa: BLE001  (the wrapper may call sys.exit)
+                out['error'] = repr(e)
         else:
             out['error'] = 'unknown command'
     except Exception as e:      # noqa: BLE001
